@@ -449,7 +449,7 @@ func (sw *scanWriter) writeFilled(opts ScanWriterParams) {
 				wr.WriteString(`,"point":` + string(appendJSONSimplePoint(nil, opts.obj.Geo())))
 			case outputHashes:
 				center := opts.obj.Geo().Center()
-				p := geohash.EncodeWithPrecision(center.Y, center.X, uint(sw.precision))
+				p := geohashOf(center.Y, center.X, uint(sw.precision))
 				wr.WriteString(`,"hash":"` + p + `"`)
 			case outputBounds:
 				wr.WriteString(`,"bounds":` + string(appendJSONSimpleBounds(nil, opts.obj.Geo())))
@@ -493,7 +493,7 @@ func (sw *scanWriter) writeFilled(opts ScanWriterParams) {
 				}
 			case outputHashes:
 				center := opts.obj.Geo().Center()
-				p := geohash.EncodeWithPrecision(center.Y, center.X, uint(sw.precision))
+				p := geohashOf(center.Y, center.X, uint(sw.precision))
 				vals = append(vals, resp.StringValue(p))
 			case outputBounds:
 				bbox := finiteRect(opts.obj.Geo())
@@ -528,4 +528,22 @@ func (sw *scanWriter) writeFilled(opts ScanWriterParams) {
 			sw.values = append(sw.values, resp.ArrayValue(vals))
 		}
 	}
+}
+
+// geohashOf is the geohash of a position. The encoder wraps around at the upper
+// end of the ranges: latitude 90 and longitude 180 (and the last few floating
+// point values below them) came out as the first cell instead of the last.
+// They are encoded as the middle of the last cell of the 32 bit grid.
+func geohashOf(lat, lon float64, precision uint) string {
+	const (
+		maxLat = 90 - 180.0/(1<<33)
+		maxLon = 180 - 360.0/(1<<33)
+	)
+	if lat > maxLat {
+		lat = maxLat
+	}
+	if lon > maxLon {
+		lon = maxLon
+	}
+	return geohash.EncodeWithPrecision(lat, lon, precision)
 }
